@@ -40,8 +40,21 @@ func c15StopSets() []c15Stops {
 		big = append(big, ref.Stop{Offset: float64(i) / 64, Color: c(uint8((i*4)%(int(a)+1)), a/2, uint8((i*i)%(int(a)+1)), a)})
 	}
 	sets = append(sets, big)
+	// generated (enumerated by the thorough tier only): every stop count 2..58, offsets spread
+	// unevenly over (0,1), colours cycling through opaque, translucent and transparent
+	for n := 2; n <= 58; n++ {
+		var g c15Stops
+		for i := 0; i < n; i++ {
+			off := (float64(i) + 0.25*float64(i%3)) / float64(n)
+			a := []uint8{0xff, 0x80, 0x00, 0xc3}[(i+n)%4]
+			g = append(g, ref.Stop{Offset: off, Color: c(uint8((i*11)%(int(a)/2+1)), uint8((i*5+n)%(int(a)+1)), a/3, a)})
+		}
+		sets = append(sets, g)
+	}
 	return sets
 }
+
+const c15QuickSets = 8
 
 type c15Map struct {
 	vb   ivg.ViewBox
@@ -82,6 +95,22 @@ var c15GenMats = [][6]float32{
 	{0.05, 0.05, 0.05, -0.05, 0.05, 0.05},
 }
 
+// generated generic matrices (thorough tier): rotation x scale x translation, with a shear
+func init() {
+	for ai := 0; ai < 11; ai++ {
+		for si, sc := range []float64{1.0 / 3, 1.0 / 17, 1.0 / 64.5, 1.0 / 150, 1.7} {
+			for ti, tr := range [][2]float64{{0.13, -0.41}, {-7.3, 11.9}} {
+				a := 2 * math.Pi * (float64(ai) + 0.37) / 11
+				co, si2 := math.Cos(a)*sc, math.Sin(a)*sc
+				sh := 0.25 * float64((ai+si+ti)%3)
+				c15GenMats = append(c15GenMats, [6]float32{float32(co), float32(-si2 + sh*co), float32(tr[0]), float32(si2), float32(co + sh*si2), float32(tr[1])})
+			}
+		}
+	}
+}
+
+const c15QuickMats = 10
+
 type c15Case struct {
 	StopSet int    `json:"stopset"`
 	Spread  int    `json:"spread"`
@@ -108,18 +137,26 @@ func c15Maps(exact bool) []c15Map {
 }
 
 func init() {
-	nset := len(c15StopSets())
+	nsets := func(tier string) int {
+		if tier == "thorough" {
+			return len(c15StopSets())
+		}
+		return c15QuickSets
+	}
 	mc.Register(&mc.Check{
 		ID:    "C15",
 		Level: "exploration",
 		Rule: "engine P over (stops x spread x shape x matrix x map x pixel): 8 stop lists (2,2,3,4,3,2,8,58 stops; first>0, last<1, transparent, equal neighbours, stops 2^-10 apart) x 4 spreads x 2 shapes; exact family: 10 dyadic matrices x 3 power-of-two viewBox/rectangle maps x pixel sweeps landing exactly on integers, stop offsets, midpoints and +-1000 (compared at the discontinuities, exact equality at stops); " +
-			"generic family: 10 sheared/rotated matrices x 12 maps x a 33x33 (thorough 129x129) pixel lattice incl. negative coordinates (pixels within 1e-9 of a discontinuity of the active spread skipped and counted). The paint is obtained as a user gets it: register writes + gradient colour + full-rectangle path on a real Renderer, src image taken from Rasterizer.Draw; At(x,y) and the GradientConfig accessors are compared with the reference; a subset is rendered with raster/vec into an RGBA64 image. " +
+			"generic family: 10 (thorough 120: + 11 rotations x 5 scales x 2 translations, sheared) matrices x 12 maps x a 33x33 (thorough 129x129) pixel lattice; thorough adds 57 generated stop lists, one per stop count 2..58 (33x33 lattice) incl. negative coordinates (pixels within 1e-9 of a discontinuity of the active spread skipped and counted). The paint is obtained as a user gets it: register writes + gradient colour + full-rectangle path on a real Renderer, src image taken from Rasterizer.Draw; At(x,y) and the GradientConfig accessors are compared with the reference; a subset is rendered with raster/vec into an RGBA64 image. " +
 			"distinct = hash of (spread-mapped region, exactness, shape); non-trivial = pixel whose raw offset lies outside [0,1] or exactly on a stop",
 		Assumptions: []string{"|At - v| <= 1 of 65535 per channel (truncation vs rounding is not the property's subject)", "accessor matrix compared within 2^-40 (exact family) / 2^-21 (generic family: the renderer's scale is a float32) relative to the magnitude of the terms"},
-		Units:       func(tier string) int { return nset * 4 * 2 * 2 },
+		Units:       func(tier string) int { return nsets(tier) * 4 * 2 * 2 },
 		Run: func(w *mc.W, u int) {
 			cs := c15Case{StopSet: u / 16, Spread: u / 4 % 4, Shape: u / 2 % 2, Exact: u%2 == 0}
 			mats := c15GenMats
+			if !w.Thorough {
+				mats = mats[:c15QuickMats]
+			}
 			if cs.Exact {
 				mats = c15ExactMats
 			}
@@ -288,7 +325,7 @@ func c15Check(w *mc.W, cs *c15Case) {
 			pxs = append(pxs, i*3-2)
 			pys = append(pys, i*5+1)
 		}
-		if w.Thorough {
+		if w.Thorough && cs.StopSet < c15QuickSets {
 			pxs, pys = pxs[:0], pys[:0]
 			for i := -32; i <= 96; i++ {
 				pxs = append(pxs, i)
@@ -329,7 +366,9 @@ func c15Check(w *mc.W, cs *c15Case) {
 					region = "outside"
 				}
 			}
-			tol := 1.0
+			// one unit of 65535 (truncation vs rounding), plus the float64 noise of the reference
+			// itself: a true value within 1e-10 of an integer may be truncated either way
+			tol := 1.0 + 1e-6
 			if exactStop && cs.Exact {
 				tol = 0
 			}
